@@ -161,8 +161,10 @@ package impl
 //@ func (*impl.manager).validateRestart {C04,C10}
 //@   requires chst != nil
 //@   after Registry.Processor [registry-typed] $0 == m.validatedTypes && $r1 ==> implements($r0, datatransfer.RequestValidator)
-//@   ensures [revalidates] seq(RequestValidator.ValidateRestart) && all(RequestValidator.ValidateRestart, $1 == chst.ChannelID() && $2 == chst)
-//@   ensures [verbatim] result0 == ret(RequestValidator.ValidateRestart, 0) && err == ret(RequestValidator.ValidateRestart, 1)
+//@   ensures [unregistered] !ret(Registry.Processor, 1) ==> err != nil && !result0.Accepted && untouched
+//@   ensures [revalidates] ret(Registry.Processor, 1) ==> seq(RequestValidator.ValidateRestart) && all(RequestValidator.ValidateRestart, $1 == chst.ChannelID() && $2 == chst) &&
+//@       result0 == ret(RequestValidator.ValidateRestart, 0) && err == ret(RequestValidator.ValidateRestart, 1)
+//@   ensures [looked-up] called(Registry.Processor, m.validatedTypes, chst.Voucher().Type)
 
 //@ func (*impl.manager).processUpdateVoucher {C19,C05}
 //@   requires request != nil
@@ -306,17 +308,21 @@ package impl
 
 //@ func (*impl.manager).updateValidationStatus {C05,C04,C08}
 //@   ensures [role] chid.Initiator == m.peerID ==> result0 != nil && untouched
-//@   ensures [flow] chid.Initiator != m.peerID ==> seq(manager.processValidationUpdate, manager.handleTransportUpdate) &&
-//@       called(manager.processValidationUpdate, _, _, chid, result) &&
+//@   ensures [flow] chid.Initiator != m.peerID ==> first(manager.processValidationUpdate, $2 == chid && $3 == result) &&
+//@       only(manager.processValidationUpdate, manager.handleTransportUpdate) &&
 //@       all(manager.handleTransportUpdate, $2 == ret(manager.processValidationUpdate, 0) && $3 == ret(manager.processValidationUpdate, 1) && $4 == result &&
-//@           $5 == ret(manager.processValidationUpdate, 2))
+//@           $5 == nil)
+//@   ensures [not-recorded] chid.Initiator != m.peerID && ret(manager.processValidationUpdate, 2) != nil ==>
+//@       seq(manager.processValidationUpdate) && result0 == ret(manager.processValidationUpdate, 2)
+//@   ensures [recorded] chid.Initiator != m.peerID && ret(manager.processValidationUpdate, 2) == nil ==>
+//@       seq(manager.processValidationUpdate, manager.handleTransportUpdate) && result0 == ret(manager.handleTransportUpdate, 0)
 
 //@ func (*impl.manager).processValidationUpdate {C04,C08}
 //@   ensures [unknown-channel] ret(GetByID, 1) != nil ==> untouched && err != nil && result0 == nil && result1 == nil
 //@   ensures [records] ret(GetByID, 1) == nil ==> (result.Accepted ? first(manager.recordAcceptedValidationEvents, $1 == ret(GetByID, 0) && $2 == result)
 //@                                                            : first(manager.recordRejectedValidationEvents, $1 == chid && $2 == result))
 //@   ensures [record-failure] err != nil ==> result0 == nil && result1 == nil
-//@   ensures [reply] err == nil ==> result0 == ret(GetByID, 0) && result1 != nil && !result1.IsRequest() && result1.TransferID() == ret(GetByID, 0).TransferID() &&
+//@   ensures [reply] err == nil ==> result0 == ret(GetByID, 0) && result0 != nil && result1 != nil && !result1.IsRequest() && result1.TransferID() == ret(GetByID, 0).TransferID() &&
 //@       result1.Accepted() == result.Accepted && result1.IsPaused() == result.LeaveRequestPaused(ret(GetByID, 0)) &&
 //@       result1.IsComplete() == (ret(GetByID, 0).Status() == datatransfer.Finalizing)
 //@   ensures [only] only(GetByID, manager.recordAcceptedValidationEvents, manager.recordRejectedValidationEvents)
